@@ -309,7 +309,8 @@ def campaign(pid, configs, variant="os", max_trace_cases=4000, liveness=True):
         fragsz = sb - arith["Reserved"]
         lens = c["lens"](maxfrag, fragsz) if callable(c["lens"]) else c["lens"]
         t0 = time.time()
-        r = frag_model(wd, c["name"], sb, arith, cmsgcap, lens, c["atts"], c["maxfault"], liveness=liveness)
+        r = frag_model(wd, c["name"], sb, arith, cmsgcap, lens, c["atts"], c["maxfault"],
+                       liveness=liveness and c.get("liveness", True))
         require_ok(r, "MCFrag " + c["name"])
         if r.violation:
             rp = vlib_replay(pid, c["name"] + "-model", {"property": pid, "kind": "model", "config": c["name"],
